@@ -209,6 +209,11 @@ def _dict(I, *a, **kw):
     return d
 
 
+@stub("builtins.dict.fromkeys")
+def _dict_fromkeys(I, it, value=None):
+    return {I.dict_key(k): value for k in I.iterate(it)}
+
+
 @stub("builtins.set")
 def _set(I, it=()):
     items = I.iterate(it)
@@ -340,6 +345,13 @@ def call_method(I, m, args, kwargs):
                 return None
             if name == "copy":
                 return list(obj)
+            if getattr(obj, "set_abstraction", False):  # a sidecar's list standing for a set of symbolic items (no duplicates by construction)
+                if name == "add":
+                    obj.append(args[0])
+                    return None
+                if name == "update":
+                    obj.extend(I.iterate(args[0]))
+                    return None
         if isinstance(obj, dict):
             if name == "get":
                 k = I.dict_key(args[0])
